@@ -21,6 +21,11 @@ def angle_set(rng, V2, c, n):
     for v in V2:
         ang.append(math.atan2(v[1] - c[1], v[0] - c[0]) + 2 * math.pi * int(rng.integers(-2, 3)))
     ang += [k * math.pi / 4 for k in range(-16, 17)]
+    # a hair on either side of the multiples of 2 pi and pi/2 (the reduction of the angle into [0, 2 pi) rounds there)
+    for base in (0.0, 2 * math.pi, -2 * math.pi, math.pi / 2, math.pi, -math.pi):
+        for eps in (1e-300, 1e-17, 4e-16, 1e-15, 1e-12):
+            ang += [base - eps, base + eps]
+    ang += [math.atan2(-1e-17, 1.0), float(np.nextafter(0.0, -1.0)), -0.0, float(np.nextafter(2 * math.pi, 0.0)), float(np.nextafter(2 * math.pi, 7.0))]
     return np.array(ang)
 
 
